@@ -272,6 +272,9 @@ def do_check(prop, mod, tier, seed, work, only=None):
             totals["pruned"] += jr["pruned"] + jr["infeasible"]
             totals["steps"] += jr["steps"]
             totals["nontrivial"] += jr.get("nontrivial_paths", 0)
+            totals["cache_hits"] = totals.get("cache_hits", 0) + (jr.get("queries") or {}).get("query_cache_hits", 0)
+            totals["folded"] = totals.get("folded", 0) + sum(a["folded_true"] for a in (jr.get("asserts") or {}).values())
+            totals["solver_checked"] = totals.get("solver_checked", 0) + sum(a["solver_checked"] for a in (jr.get("asserts") or {}).values())
             for f in jr.get("functions", []):
                 funcs_encoded.add(f)
             h = jobmap[jr["id"]]["func"]
@@ -406,6 +409,9 @@ def do_check(prop, mod, tier, seed, work, only=None):
             functions_encoded=meta.get("functions", []),
             solver=dict(primary="z3 5.1.0 (z3-new -in, QF_BV, incremental)", queries=totals["queries"], sat=totals["sat"],
                         unsat=totals["unsat"], unknown=totals["unknown"], solver_cpu_s=round(totals["solver_cpu_s"], 2),
+                        answered_from_query_cache=totals.get("cache_hits", 0),
+                        assertion_instances_sent_to_solver=totals.get("solver_checked", 0),
+                        assertion_instances_folded_to_true_by_the_term_simplifier=totals.get("folded", 0),
                         cross_check=dict(xtotal, note="a sample of the primary solver's sat/unsat answers re-asked to z3 4.8.12 and cvc5 1.0 as standalone QF_BV problems")),
             paths_pruned_or_infeasible=totals["pruned"],
             jobs=all_jobs,
